@@ -382,7 +382,7 @@ macro_rules! c09_body {
 }
 
 
-// @verif props=C09,C02 tier=thorough timeout=5400 mem=16 unwind=7 bound="haystack <= 1 symbolic scalars, arbitrary engine table, symbolic start, up to 4 next() calls; PikeVMExecutor" funcs="PikeVMExecutor::initial_position,next_match,pikevm::successful_match,exec::Matches::next"
+// @verif props=C09,C02 tier=extended timeout=5400 mem=16 unwind=7 bound="haystack <= 1 symbolic scalars, arbitrary engine table, symbolic start, up to 4 next() calls; PikeVMExecutor" funcs="PikeVMExecutor::initial_position,next_match,pikevm::successful_match,exec::Matches::next"
 // @verif stubs="pikevm::MatchAttempter::try_at_pos -> arbitrary deterministic table END[offset]"
 #[kani::proof]
 #[kani::unwind(7)]
@@ -393,7 +393,7 @@ fn c09_iter_pikevm_utf8() {
     core::mem::forget(cr);
 }
 
-// @verif props=C09,C02 tier=thorough timeout=5400 mem=16 unwind=8 bound="haystack <= 2 symbolic scalars, arbitrary engine table, symbolic start, up to 5 next() calls; PikeVMExecutor" funcs="PikeVMExecutor::initial_position,next_match,pikevm::successful_match,exec::Matches::next"
+// @verif props=C09,C02 tier=extended timeout=5400 mem=16 unwind=8 bound="haystack <= 2 symbolic scalars, arbitrary engine table, symbolic start, up to 5 next() calls; PikeVMExecutor" funcs="PikeVMExecutor::initial_position,next_match,pikevm::successful_match,exec::Matches::next"
 // @verif stubs="pikevm::MatchAttempter::try_at_pos -> arbitrary deterministic table END[offset]"
 #[kani::proof]
 #[kani::unwind(8)]
@@ -415,7 +415,7 @@ fn c09_iter_pikevm_anchored() {
     core::mem::forget(cr);
 }
 
-// @verif props=C09,C02 tier=thorough timeout=5400 mem=16 unwind=8 bound="as c09_iter_pikevm_utf8 with StartPredicate::StartAnchored (engine can only match at 0)" funcs="PikeVMExecutor::next_match (anchored branch)"
+// @verif props=C09,C02 tier=extended timeout=5400 mem=16 unwind=8 bound="as c09_iter_pikevm_utf8 with StartPredicate::StartAnchored (engine can only match at 0)" funcs="PikeVMExecutor::next_match (anchored branch)"
 // @verif stubs="pikevm::MatchAttempter::try_at_pos -> table"
 #[kani::proof]
 #[kani::unwind(8)]
@@ -427,7 +427,7 @@ fn c09_iter_pikevm_anchored_n2() {
 }
 
 // ---- thorough variants: haystacks of up to 3 characters ----
-// @verif props=C09,C02 tier=thorough timeout=5400 mem=20 unwind=9 bound="haystack <= 3 symbolic scalars, arbitrary engine table, symbolic start, up to 6 next() calls; PikeVMExecutor" funcs="PikeVMExecutor::initial_position,next_match,pikevm::successful_match,exec::Matches::next"
+// @verif props=C09,C02 tier=extended timeout=5400 mem=20 unwind=9 bound="haystack <= 3 symbolic scalars, arbitrary engine table, symbolic start, up to 6 next() calls; PikeVMExecutor" funcs="PikeVMExecutor::initial_position,next_match,pikevm::successful_match,exec::Matches::next"
 // @verif stubs="pikevm::MatchAttempter::try_at_pos -> arbitrary deterministic table END[offset]"
 #[kani::proof]
 #[kani::unwind(9)]
@@ -438,7 +438,7 @@ fn c09_iter_pikevm_utf8_n3() {
     core::mem::forget(cr);
 }
 
-// @verif props=C09,C02 tier=thorough timeout=5400 mem=20 unwind=9 bound="as c09_iter_pikevm_utf8 with StartPredicate::StartAnchored (engine can only match at 0)" funcs="PikeVMExecutor::next_match (anchored branch)"
+// @verif props=C09,C02 tier=extended timeout=5400 mem=20 unwind=9 bound="as c09_iter_pikevm_utf8 with StartPredicate::StartAnchored (engine can only match at 0)" funcs="PikeVMExecutor::next_match (anchored branch)"
 // @verif stubs="pikevm::MatchAttempter::try_at_pos -> table"
 #[kani::proof]
 #[kani::unwind(9)]
